@@ -86,6 +86,12 @@ func c16GenTeardown(r *sim.Rand, tier string, cs *sim.Case) {
 	cs.Knobs["radius"] = int64(r.Weighted(1, 5))
 	cs.Knobs["padt_retries"] = int64(r.N(2))
 	cs.Knobs["pool29"] = int64(r.N(2))
+	if cs.Knobs["radius"] == 1 && r.P(15) {
+		// the accounting server goes silent for Stop requests; in half of these runs the operator
+		// has raised the RADIUS timeouts above the teardown's overall cleanup timeout (legal)
+		cs.Knobs["acctsilent"] = 1
+		cs.Knobs["radlong"] = int64(r.N(2))
+	}
 	stages := []string{"create", "auth", "ip", "up"}
 	for s := 0; s < n; s++ {
 		prefix := r.Weighted(1, 1, 2, 3, 10)
@@ -143,6 +149,13 @@ func c16RunTeardown(c *sim.Ctx) {
 	if tcfg.PADTRetries < 0 || tcfg.PADTRetries > 2 {
 		tcfg.PADTRetries = 1
 	}
+	acctSilent := cs.Knob("acctsilent", 0) == 1
+	radTimeout, radRetries := 3*time.Second, 3
+	if acctSilent && cs.Knob("radlong", 0) == 1 {
+		tcfg.RADIUSTimeout = 12 * time.Second
+		radTimeout, radRetries = 12*time.Second, 2
+		c.S.Probe("radius_timeouts_above_cleanup_timeout")
+	}
 	td := pppoe.NewSessionTeardown(tcfg, log)
 	td.SetSessionManager(sm)
 	td.SetIPPool(pool)
@@ -152,12 +165,21 @@ func c16RunTeardown(c *sim.Ctx) {
 	var rcl *bngradius.Client
 	if withRadius {
 		rcl, err = bngradius.NewClient(bngradius.ClientConfig{Servers: []bngradius.ServerConfig{{Host: "radius.sim", Port: 1812, Secret: "s3cret"}},
-			NASID: "bng", Timeout: 3 * time.Second, Retries: 3}, log)
+			NASID: "bng", Timeout: radTimeout, Retries: radRetries}, log)
 		if err != nil {
 			panic(err)
 		}
 		td.SetRADIUSClient(rcl)
 		rn := &sim.RadiusNet{S: c.S, Secret: []byte("s3cret"), Latency: 5 * time.Millisecond}
+		if acctSilent {
+			rn.Decide = func(p *radius.Packet, addr string) int {
+				if p.Code == radius.CodeAccountingRequest && int(rfc2866.AcctStatusType_Get(p)) == 2 {
+					c.S.Fault("radius.accounting-silent")
+					return sim.RadDrop
+				}
+				return sim.RadOK
+			}
+		}
 		rn.Serve = func(p *radius.Packet, addr string, raw []byte) *radius.Packet {
 			if p.Code != radius.CodeAccountingRequest {
 				return p.Response(radius.CodeAccessAccept)
@@ -348,7 +370,13 @@ func c16RunTeardown(c *sim.Ctx) {
 		}
 	}
 	settle := func() {
-		sleepBusy(time.Duration(tcfg.PADTRetries+1)*tcfg.PADTRetryDelay + 2*time.Second)
+		d := time.Duration(tcfg.PADTRetries+1)*tcfg.PADTRetryDelay + 2*time.Second
+		if acctSilent {
+			// the Stop attempt waits for an answer that never comes: the cleanup goes on when its
+			// RADIUS timeout or, at the latest, its overall cleanup timeout has run out
+			d += tcfg.CleanupTimeout + time.Second
+		}
+		sleepBusy(d)
 	}
 
 	// auditAll audits every session that has been ended, under the label of the
@@ -393,7 +421,7 @@ func c16RunTeardown(c *sim.Ctx) {
 					c.Fail("double-release", "pppoe-teardown/address-released-twice/"+l, "session %d (s%d, address %v) ended by %s: IPPool.Release was called %d times for it", x.id, x.idx, x.addr, l, r)
 				}
 			}
-			if withRadius {
+			if withRadius && !acctSilent { // (a silent accounting server receives nothing: no Stop can be demanded of it)
 				st := c16stops(acct, x.key)
 				switch {
 				case x.started && st == 0 && once("acct0"):
